@@ -173,6 +173,16 @@ func matrixCorpora(thorough bool) ([]*shardCase, error) {
 				sb.WriteString(" tail")
 				long.Docs = append(long.Docs, &ref.Doc{Name: fmt.Sprintf("éé%d-%d/abc.txt", n, pi), Content: []byte(sb.String()), Branches: []string{"HEAD"}, Language: "Text"})
 			}
+			// the same with four-byte runes (the widest encoding: 100 runes span up to 400 bytes)
+			for pi, pad4 := range [][]string{{"😀"}, {"😀", "😀", "😀", "x"}, {"x", "😀", "€", "😀"}} {
+				var sb strings.Builder
+				for i := 0; i < n; i++ {
+					sb.WriteString(pad4[i%len(pad4)])
+				}
+				sb.WriteString([]string{"abc", "éab Éab", "abcabc\nabd"}[pi])
+				sb.WriteString(" tail")
+				long.Docs = append(long.Docs, &ref.Doc{Name: fmt.Sprintf("😀é%d-%d/abd.txt", n, pi), Content: []byte(sb.String()), Branches: []string{"HEAD"}, Language: "Text"})
+			}
 		}
 		add("long", false, long)
 	})
@@ -234,8 +244,8 @@ func matrixQueries(sc *shardCase, thorough bool) []query.Q {
 			}
 		}
 	case sc.name == "long":
-		qs = append(qs, gen.SubstringAtoms([]string{"abc", "éab", "abcabc", "abd", "x", "é", "€y", "c t", "yxé€", "y\nx", "abc tail", "b Éab"}, gen.FieldModes)...)
-		qs = append(qs, gen.RegexpAtoms([]string{"abc|abd", "a.c", `\babc\b`, "é€", "tail$", "^xé", "(?:abc){2}", "€y\n", "abc(?s:.*)abd", "abcabc(?s:.)abd", "abc.*abd", "é(?s:.*)tail"}, [][2]bool{{false, true}})...)
+		qs = append(qs, gen.SubstringAtoms([]string{"abc", "éab", "abcabc", "abd", "x", "é", "€y", "c t", "yxé€", "y\nx", "abc tail", "b Éab", "😀", "😀abc", "😀x😀"}, gen.FieldModes)...)
+		qs = append(qs, gen.RegexpAtoms([]string{"abc|abd", "a.c", `\babc\b`, "é€", "tail$", "^xé", "(?:abc){2}", "€y\n", "abc(?s:.*)abd", "abcabc(?s:.)abd", "abc.*abd", "é(?s:.*)tail", "😀+abc", "[😀x]{3}a"}, [][2]bool{{false, true}})...)
 	}
 	return qs
 }
